@@ -7,11 +7,11 @@ from pyvc.values import fresh
 IMPORTS = "from ssh_audit.utils import Utils\n"
 
 
-IS_LOOP = {1: dict(invariant=["all_printable(v[:_k])", "r == False"], types={'c': 'str', 'i': 'int'}, use_head=["all_printable_at(v, _k)"])}
+IS_LOOP = {1: dict(header='for c in v', invariant=["all_printable(v[:_k])", "r == False"], types={'c': 'str', 'i': 'int'}, use_head=["all_printable_at(v, _k)"])}
 
 
 def to_loop(spec):
-    return {1: dict(invariant=["latin(r.val) == %s(v[:_k])" % spec, "in_ascii(r.val)"], types={'c': 'str', 'i': 'int'}, modifies=['r'])}
+    return {1: dict(header='for c in v', invariant=["latin(r.val) == %s(v[:_k])" % spec, "in_ascii(r.val)"], types={'c': 'str', 'i': 'int'}, modifies=['r'])}
 
 
 def units():
